@@ -12,6 +12,7 @@ import (
 	"runtime/debug"
 	"sort"
 	"strings"
+	"sync/atomic"
 	"time"
 )
 
@@ -86,6 +87,7 @@ type Rec struct {
 	Samples     []json.RawMessage
 	Notes       map[string]struct{}
 
+	hb        *int64 // heartbeat cell of the worker's hang watchdog
 	cur       interface{}
 	curJSON   json.RawMessage
 	curViol   int
@@ -103,6 +105,16 @@ func h64(s string) uint64 {
 	h := fnv.New64a()
 	h.Write([]byte(s))
 	return h.Sum64()
+}
+
+// Heartbeat tells the hang watchdog that the current case is making
+// progress (long cases: a state-graph search, a subtree of schedules). The
+// horizon then applies to the time since the last heartbeat, i.e. to one
+// execution of the real code, not to the whole case.
+func (r *Rec) Heartbeat() {
+	if r.hb != nil {
+		atomic.StoreInt64(r.hb, time.Now().UnixNano())
+	}
 }
 
 // Outcome records an observed outcome; the evidence reports how many
